@@ -14,8 +14,8 @@
 int nondet_int(void); @R@ nondet_real(void); _Bool nondet_bool(void);
 void verif_abort(char *msg) { __CPROVER_assume(0); }
 
-#define GX_DEFINE
 #include "drv_ghost.h"
+drv_ghost_t GH_;
 #define LOG(at) do { g_seq++; (at) = g_seq; } while (0)
 
 int xerbla_(char *s, int *i) { g_xerbla_arg = *i; g_xerbla_calls++; return 0; }
@@ -31,6 +31,18 @@ double @r@lamch_(char *c) {
 double SuperLU_timer_(void) { double t; return t; }
 int_t sp_ienv(int_t i) { int_t r; __CPROVER_assume(r >= 1 && r <= 1000); return r; }
 
+#ifdef STUB_POOLS
+/* pool mode (for the static-frame instrumentation, which cannot follow writes into memory allocated in callees):
+ * allocations are static objects; balance is tracked by the ghost counters instead of cbmc's leak check */
+#define POOL(ptr, obj) (ptr) = (void *)&(obj)
+#define UNPOOL(ptr) ((void)0)
+void *superlu_malloc(size_t size) { LOG(g_at_malloc); g_n_malloc++; __CPROVER_assert(size <= sizeof(SuperMatrix), "pool model: only the AA header is allocated directly by the drivers"); return &pool_AA; }
+void superlu_free(void *p) { LOG(g_at_free); g_n_free++; __CPROVER_assert(p == (void *)&pool_AA, "pool model: free of the AA header"); }
+#else
+#define POOL(ptr, obj) do { (ptr) = malloc(sizeof(obj)); __CPROVER_assume((ptr) != NULL); } while (0)
+#define UNPOOL(ptr) free(ptr)
+#endif
+#ifndef STUB_POOLS
 void *superlu_malloc(size_t size) {
   LOG(g_at_malloc); g_n_malloc++;
 #ifdef MALLOC_CAN_FAIL
@@ -39,16 +51,25 @@ void *superlu_malloc(size_t size) {
   { void *p_ = malloc(size); __CPROVER_assume(p_ != NULL); return p_; }
 }
 void superlu_free(void *p) { LOG(g_at_free); g_n_free++; free(p); }
+#endif
 
 void StatAlloc(const int_t n, const int_t nprocs, const int_t panel_size, const int_t relax, Gstat_t *G) {
   LOG(g_at_StatAlloc);
+#ifdef STUB_POOLS
+  G->utime = pool_utime; G->ops = pool_ops; G->procstat = pool_procstat;
+#else
   G->utime = malloc(NPHASES * sizeof(double));
   G->ops = malloc(NPHASES * sizeof(flops_t));
   G->procstat = malloc((size_t)nprocs * sizeof(procstat_t));
   __CPROVER_assume(G->utime && G->ops && G->procstat);
+#endif
 }
 void StatInit(const int_t n, const int_t nprocs, Gstat_t *G) { g_seq++; }
+#ifdef STUB_POOLS
+void StatFree(Gstat_t *G) { LOG(g_at_StatFree); }
+#else
 void StatFree(Gstat_t *G) { LOG(g_at_StatFree); free(G->utime); free(G->ops); free(G->procstat); }
+#endif
 void PrintStat(Gstat_t *G) { g_seq++; }
 
 void @p@Create_CompCol_Matrix(SuperMatrix *A, int_t m, int_t n, int_t nnz, @T@ *nzval, int_t *rowind, int_t *colptr,
@@ -56,11 +77,19 @@ void @p@Create_CompCol_Matrix(SuperMatrix *A, int_t m, int_t n, int_t nnz, @T@ *
   LOG(g_at_create); g_create_A = A; g_create_nzval = nzval; g_create_rowind = rowind; g_create_colptr = colptr;
   g_create_m = m; g_create_n = n; g_create_nnz = nnz; g_create_stype = stype;
   A->Stype = stype; A->Dtype = dtype; A->Mtype = mtype; A->nrow = m; A->ncol = n;
+#ifdef STUB_POOLS
+  A->Store = &pool_AAstore;
+#else
   A->Store = malloc(sizeof(NCformat)); __CPROVER_assume(A->Store != NULL);
+#endif
   ((NCformat *)A->Store)->nnz = nnz; ((NCformat *)A->Store)->nzval = nzval;
   ((NCformat *)A->Store)->rowind = rowind; ((NCformat *)A->Store)->colptr = colptr;
 }
+#ifdef STUB_POOLS
+void Destroy_SuperMatrix_Store(SuperMatrix *A) { LOG(g_at_destroyAA); __CPROVER_assert(A->Store == (void *)&pool_AAstore, "pool model: store of the AA view"); }
+#else
 void Destroy_SuperMatrix_Store(SuperMatrix *A) { LOG(g_at_destroyAA); free(A->Store); }
+#endif
 
 void @p@gsequ(SuperMatrix *A, @R@ *r, @R@ *c, @R@ *rowcnd, @R@ *colcnd, @R@ *amax, int_t *info) {
   LOG(g_at_gsequ); g_n_gsequ++; g_gsequ_A = A;
@@ -75,23 +104,42 @@ void @p@laqgs(SuperMatrix *A, @R@ *r, @R@ *c, @R@ rowcnd, @R@ colcnd, @R@ amax, 
 }
 void sp_colorder(SuperMatrix *A, int_t *perm_c, superlumt_options_t *o, SuperMatrix *AC) {
   LOG(g_at_colorder); g_colorder_A = A;
+#ifdef STUB_POOLS
+  g_AC_token = &pool_ACstore;
+#else
   g_AC_token = malloc(sizeof(NCPformat)); __CPROVER_assume(g_AC_token != NULL);
+#endif
   AC->Stype = SLU_NCP; AC->Dtype = A->Dtype; AC->Mtype = A->Mtype; AC->nrow = A->nrow; AC->ncol = A->ncol; AC->Store = g_AC_token;
 }
+#ifdef STUB_POOLS
+void Destroy_CompCol_Permuted(SuperMatrix *AC) { LOG(g_at_destroyAC); __CPROVER_assert(AC->Store == (void *)&pool_ACstore, "pool model: store of AC"); }
+#else
 void Destroy_CompCol_Permuted(SuperMatrix *AC) { LOG(g_at_destroyAC); free(AC->Store); }
+#endif
 void p@p@gstrf_init(int_t nprocs, fact_t fact, trans_t trans, yes_no_t refact, int_t panel_size, int_t relax,
                   @R@ u, yes_no_t usepr, double drop_tol, int_t *perm_c, int_t *perm_r, void *work, int_t lwork,
                   SuperMatrix *A, SuperMatrix *AC, superlumt_options_t *o, Gstat_t *G) {
   LOG(g_at_strf_init); g_init_trans = trans; g_colorder_A = A;
   o->nprocs = nprocs; o->fact = fact; o->trans = trans; o->refact = refact; o->lwork = lwork; o->work = work;
   o->perm_c = perm_c; o->perm_r = perm_r; o->usepr = usepr;
+#ifdef STUB_POOLS
+  o->etree = (int_t *)&pool_opt[0]; o->colcnt_h = (int_t *)&pool_opt[1]; o->part_super_h = (int_t *)&pool_opt[2];
+#else
   o->etree = malloc(1); o->colcnt_h = malloc(1); o->part_super_h = malloc(1);
   __CPROVER_assume(o->etree && o->colcnt_h && o->part_super_h);
+#endif
+#ifdef STUB_POOLS
+  g_AC_token = &pool_ACstore;
+#else
   g_AC_token = malloc(sizeof(NCPformat)); __CPROVER_assume(g_AC_token != NULL);
+#endif
   AC->Stype = SLU_NCP; AC->Dtype = A->Dtype; AC->Mtype = A->Mtype; AC->nrow = A->nrow; AC->ncol = A->ncol; AC->Store = g_AC_token;
 }
 void pxgstrf_finalize(superlumt_options_t *o, SuperMatrix *AC) {
-  LOG(g_at_finalize); free(o->etree); free(o->colcnt_h); free(o->part_super_h); free(AC->Store);
+  LOG(g_at_finalize);
+#ifndef STUB_POOLS
+  free(o->etree); free(o->colcnt_h); free(o->part_super_h); free(AC->Store);
+#endif
 }
 void p@p@gstrf(superlumt_options_t *o, SuperMatrix *A, int_t *perm_r, SuperMatrix *L, SuperMatrix *U, Gstat_t *G, int_t *info) {
   LOG(g_at_strf); g_n_strf++; g_strf_A = A;
